@@ -74,13 +74,22 @@ void Runner::op_start(Thread *t, int idx, const Op &op, OpRes &res) {
     }
     return fd;
   };
+  // a FILE* of the caller: with one of the caller's standard descriptors closed, the caller's own fopen() lands on that number
+  // (a handle cannot name descriptor 0 - 0 means "unset" in the options - but a FILE* can)
+  auto make_user_file_fd = [&]() -> int {
+    int fd = k->user_open("/tmp/userfile", O_RDWR, ((plan.seed >> 1) & 1) ? 0 : 3);  // in half of the plans the lowest free number, as fopen() would
+    if (fd < 0) return -1;
+    user_fds.insert(fd);
+    user_ofd[fd] = k->fdent(k->caller, fd)->ofd->id;
+    return fd;
+  };
   auto make_file = [&](int code) -> const void * {
     if (code == 2) return k->file_new(-1);
     if (code == 3) return stdout;  // the caller's own standard streams as FILE*: descriptor numbers 1, 2, 0
     if (code == 4) return stderr;
     if (code == 5) return stdin;
-    int fd = make_user_fd(1, 2);
-    return k->file_new(fd > 0 ? fd : -1);
+    int fd = make_user_file_fd();
+    return k->file_new(fd);
   };
   const RedirSpec *rs[3] = { &s.in, &s.out, &s.err };
   ShimRedirect *ro[3] = { &b.o.in, &b.o.out, &b.o.err };
@@ -103,7 +112,8 @@ void Runner::op_start(Thread *t, int idx, const Op &op, OpRes &res) {
     } else if (rs[i]->file) {
       ro[i]->file = make_file(rs[i]->file);
       int fd = k->files[ro[i]->file];
-      cx.start_user_ofd[i] = fd > 0 ? user_ofd[fd] : -1;
+      cx.start_user_ofd[i] = fd >= 0 ? user_ofd[fd] : -1;
+      if (fd >= 0 && fd <= 2) { cx.src_low[i] = fd; probe(P_user_file_on_low_fd); }
     }
     if (rs[i]->path) ro[i]->path = path_for(rs[i]->path, b.paths[i], ++path_seq);
   }
@@ -112,7 +122,7 @@ void Runner::op_start(Thread *t, int idx, const Op &op, OpRes &res) {
   if (s.file) {
     b.o.file = make_file(s.file);
     int fd = k->files[b.o.file];
-    cx.start_user_ofd[1] = cx.start_user_ofd[2] = fd > 0 ? user_ofd[fd] : -1;
+    cx.start_user_ofd[1] = cx.start_user_ofd[2] = fd >= 0 ? user_ofd[fd] : -1;
   }
   if (s.path) b.o.path = path_for(s.path, b.paths[3], ++path_seq);
   b.o.env_behavior = s.env_behavior;
@@ -552,6 +562,7 @@ void Runner::check_image(Thread *t, Proc *c, ExecImage *img) {
     } else if (eff[i] == C.R_PARENT) {
       if (cx.parent_ofd[i] >= 0) { if (f.ofd_id != cx.parent_ofd[i]) wrong("not the parent's corresponding stream"); }
       else if (f.kind != OFD::NUL) wrong("the parent has no such stream, expected the null device");
+      else if (f.acc != want_acc && f.acc != O_RDWR) wrong("the null device standing in for the parent's missing stream is opened in the wrong direction");
     } else if (eff[i] == C.R_DISCARD) {
       if (f.kind != OFD::NUL) wrong("not the null device");
       else if (f.acc != want_acc && f.acc != O_RDWR) wrong("null device opened in the wrong direction");
